@@ -10,11 +10,12 @@ SCR=/tmp/mutv-$(basename "$WT")
 git -C "$WT" checkout -q -- . || exit 2
 if [ "$PATCH" != "-" ]; then git -C "$WT" apply "$PATCH" || { echo "patch does not apply"; exit 2; }; fi
 mkdir -p "$SCR"
-rsync -a --delete --exclude .git --exclude 'replays/*.json' /verif/ "$SCR/verif/"
+rsync -a --delete --exclude .git --exclude 'replays/*.json' --exclude '.build/work/*' --exclude '.build/chk*' /verif/ "$SCR/verif/"
 ( cd "$SCR/verif" && VERIF_REPO="$WT" ./bin/check "$PROP" --tier "$TIER" ) > "/tmp/mutcheck-$PROP.log" 2>&1
 rc=$?
 grep -E "VIOLATION|KNOWN-FINDING|$PROP $TIER:" "/tmp/mutcheck-$PROP.log" | cut -c1-300 | tail -6
 mkdir -p /tmp/mut-replays; cp "$SCR"/verif/replays/*.json /tmp/mut-replays/ 2>/dev/null
 echo "exit=$rc"
 git -C "$WT" checkout -q -- .
+rm -rf "$SCR"    # ~1-2 GB per copy: never leave it behind
 exit $rc
